@@ -6,9 +6,12 @@ package main
 // mod 2^w). An "unsat" answer for (path condition and not obligation) under this model proves the obligation
 // for IEEE-754 arithmetic as long as no operation overflows to infinity (all values here are bounded by
 // 64-bit integers times constants) and no NaN occurs (no FP variable enters: only int->float conversions).
-// A "sat" answer proves nothing and is never reported as a violation.
+// A "sat" answer proves nothing by itself: its integer inputs are kept as a CANDIDATE counterexample that is reported
+// only if the native replay reproduces the failure (relaxedCheck).
 
 import (
+	"regexp"
+	"strconv"
 	"fmt"
 	"math"
 	"math/big"
@@ -25,6 +28,7 @@ type relaxer struct {
 	failed bool
 	n      int
 	vars   map[string]bool
+	tight  bool
 }
 
 func hasFP(t *Term, seen map[*Term]bool) bool {
@@ -110,6 +114,14 @@ func (r *relaxer) round(op Op, a string, fw int) string {
 	if fw == 32 {
 		u, eta = "(/ 1.0 16777216.0)", "(/ 1.0 "+pow2(150)+".0)"
 	}
+	if r.tight {
+		// candidate search only: a quarter of the unit round-off - a failure that survives it is one round-to-nearest
+		// is likely to show (the replay decides)
+		u = "(/ 1.0 36028797018963968.0)"
+		if fw == 32 {
+			u = "(/ 1.0 67108864.0)"
+		}
+	}
 	e := r.fresh("e", "Real")
 	n := r.fresh("n", "Real")
 	fmt.Fprintf(&r.sides, "(assert (and (<= (- %s) %s) (<= %s %s) (<= (- %s) %s) (<= %s %s)))\n", u, e, e, u, eta, n, n, eta)
@@ -194,6 +206,34 @@ func (r *relaxer) tr1(t *Term) string {
 				return fmt.Sprintf("(mod (* %s %s) %s)", r.tr(t.Args[0]), r.tr(t.Args[1]), pow2(w))
 			}
 			return ""
+		case OBvUDiv, OBvURem, OBvSDiv, OBvSRem:
+			// by a positive constant only
+			k := t.Args[1]
+			if !k.IsConst() || k.Val == 0 || (w < 64 && k.Val >= uint64(1)<<uint(w-1)) || (w == 64 && k.Val >= uint64(1)<<63) {
+				return ""
+			}
+			ks := fmt.Sprintf("%d", k.Val)
+			switch t.Op {
+			case OBvUDiv:
+				return fmt.Sprintf("(div %s %s)", r.tr(t.Args[0]), ks)
+			case OBvURem:
+				return fmt.Sprintf("(mod %s %s)", r.tr(t.Args[0]), ks)
+			}
+			sx := r.signed(t.Args[0])
+			q := fmt.Sprintf("(ite (>= %s 0) (div %s %s) (- (div (- %s) %s)))", sx, sx, ks, sx, ks) // truncation towards zero
+			if t.Op == OBvSDiv {
+				return r.unsignedOfInt(q, w)
+			}
+			return r.unsignedOfInt(fmt.Sprintf("(- %s (* %s %s))", sx, ks, q), w)
+		case OBvShl, OBvLShr:
+			k := t.Args[1]
+			if !k.IsConst() || k.Val >= uint64(w) {
+				return ""
+			}
+			if t.Op == OBvShl {
+				return fmt.Sprintf("(mod (* %s %s) %s)", r.tr(t.Args[0]), pow2(int(k.Val)), pow2(w))
+			}
+			return fmt.Sprintf("(div %s %s)", r.tr(t.Args[0]), pow2(int(k.Val)))
 		case OIte:
 			return "(ite " + r.tr(t.Args[0]) + " " + r.tr(t.Args[1]) + " " + r.tr(t.Args[2]) + ")"
 		case OFToS, OFToU:
@@ -281,10 +321,19 @@ func (r *relaxer) tr1(t *Term) string {
 
 // relaxedUnsat tries to show (pc and not cond) unsatisfiable in the real error model.
 func relaxedUnsat(ctx *Ctx, pc []*Term, cond *Term) bool {
-	r := &relaxer{ctx: ctx, memo: map[*Term]string{}, vars: map[string]bool{}}
+	res, _ := relaxedCheck(ctx, pc, cond, nil, false)
+	return res == "unsat"
+}
+
+// relaxedCheck decides pc => cond in the real rounding-error model.  "unsat": proved (in that model).  "sat": the
+// model's values of the given integer / boolean variables are returned as a CANDIDATE counterexample - the error
+// terms of the model are chosen by the solver, not by IEEE rounding, so the candidate proves nothing until the
+// native replay reproduces it.
+func relaxedCheck(ctx *Ctx, pc []*Term, cond *Term, vars []*Term, tight bool) (string, map[string]uint64) {
+	r := &relaxer{ctx: ctx, memo: map[*Term]string{}, vars: map[string]bool{}, tight: tight}
 	neg := r.tr(ctx.Not(cond))
 	if r.failed {
-		return false
+		return "unknown", nil
 	}
 	var asserts []string
 	for _, p := range pc {
@@ -294,20 +343,35 @@ func relaxedUnsat(ctx *Ctx, pc []*Term, cond *Term) bool {
 		if !r.failed {
 			asserts = append(asserts, s)
 		}
-		// an untranslatable assumption is dropped (sound: fewer assumptions)
+		// an untranslatable assumption is dropped (sound for "unsat": fewer assumptions; a "sat" candidate is replayed)
 		r.failed = save
 	}
+	var names []string
+	for _, v := range vars {
+		if v.Op == OVar && v.S.K != KFP {
+			save := r.failed
+			r.failed = false
+			r.tr(v)
+			if !r.failed {
+				names = append(names, v.Name)
+			}
+			r.failed = save
+		}
+	}
 	var sb strings.Builder
-	sb.WriteString("(set-logic ALL)\n")
+	sb.WriteString("(set-logic ALL)\n(set-option :produce-models true)\n")
 	sb.WriteString(r.decls.String())
 	sb.WriteString(r.sides.String())
 	for _, a := range asserts {
 		sb.WriteString("(assert " + a + ")\n")
 	}
 	sb.WriteString("(assert " + neg + ")\n(check-sat)\n")
+	if len(names) > 0 {
+		sb.WriteString("(get-value (" + strings.Join(names, " ") + "))\n")
+	}
 	f, err := os.CreateTemp("", "gosmt-relax-*.smt2")
 	if err != nil {
-		return false
+		return "unknown", nil
 	}
 	defer os.Remove(f.Name())
 	f.WriteString(sb.String())
@@ -315,11 +379,34 @@ func relaxedUnsat(ctx *Ctx, pc []*Term, cond *Term) bool {
 	if d := os.Getenv("GOSMT_KEEPRELAX"); d != "" {
 		os.WriteFile(d, []byte(sb.String()), 0o644)
 	}
-	for _, cmd := range [][]string{{"z3-new", "-T:60", f.Name()}, {"cvc5", "--tlimit=60000", f.Name()}} {
+	for _, cmd := range [][]string{{"z3-new", "-T:60", f.Name()}, {"cvc5", "--produce-models", "--tlimit=60000", f.Name()}} {
 		out, _ := exec.Command(cmd[0], cmd[1:]...).CombinedOutput()
-		if strings.TrimSpace(string(out)) == "unsat" {
-			return true
+		o := strings.TrimSpace(string(out))
+		if o == "unsat" || strings.HasPrefix(o, "unsat\n") {
+			return "unsat", nil
+		}
+		if strings.HasPrefix(o, "sat") {
+			model := map[string]uint64{}
+			re := regexp.MustCompile(`\(([A-Za-z_][A-Za-z0-9_]*) (\(- (\d+)\)|(\d+)|true|false)\)`)
+			for _, m := range re.FindAllStringSubmatch(o, -1) {
+				switch {
+				case m[2] == "true":
+					model[m[1]] = 1
+				case m[2] == "false":
+					model[m[1]] = 0
+				case m[3] != "":
+					v, _ := strconv.ParseUint(m[3], 10, 64)
+					model[m[1]] = -v
+				default:
+					v, _ := strconv.ParseUint(m[4], 10, 64)
+					model[m[1]] = v
+				}
+			}
+			if len(model) == len(names) && len(names) > 0 {
+				return "sat", model
+			}
+			return "unknown", nil
 		}
 	}
-	return false
+	return "unknown", nil
 }
